@@ -5,13 +5,16 @@
      [fmt     |-> "pptx",
       base    |-> <<"ppt", "slides">>,          directory (path segments) of the part that carries the
                                                 relationships / hrefs of the anchors
-      media   |-> << [part |-> <<"ppt","media","i1.png">>, kind |-> "png", w |-> 5, h |-> 4] .. >>,
+      media   |-> << [part |-> <<"ppt","media","i1.png">>, kind |-> "png", w |-> 5, h |-> 4,
+                      fill |-> FALSE (JPEG with 0xFF fill bytes before markers), noext |-> FALSE (name without extension)] .. >>,
                                                 the image parts present in the package; the index in this
                                                 sequence is the "media index" the projection maps sha256 to
       anchors |-> << [unit  |-> 1,              page / slide / sheet the anchor sits on (1 for flow formats)
                       cands |-> << T .. >>,     the relationship(s) carrying the anchor's id: exactly one, or
                                                 two for a duplicated rId (invalid package: either may win)
-                      fw |-> 40, fh |-> 24]     display size of the frame in CSS px (ODF), 0 elsewhere
+                      ref |-> 1,                identity of the reference (relationship id / href / manifest item):
+                                                anchors with equal ref share ONE reference
+                      fw |-> 40, fh |-> 24]     display size of the frame in CSS px (ODF, XLSX extent), 0 elsewhere
                      .. >>,                     in DOCUMENT ORDER
       order   |-> <<2, 1>>]                     anchor indices in CONTAINER order (relationship file /
                                                 OPF manifest order); only deviations read it
@@ -34,12 +37,14 @@
      * there is an assignment pos of anchors to positions of D, strictly increasing in document order, such
        that the record at pos(i) carries the bytes of a part anchor i denotes, the content type of that
        part's kind, its declared pixel size, and -- formats with numbered pages/slides -- the anchor's unit;
-       an anchor may stay unassigned only if it denotes nothing (missing, external) or an earlier anchor
-       already returned the same part; D[p].n = p (running number 1..n);
+       an anchor stays unassigned iff it denotes nothing (missing, external) or -- formats that return a
+       reference once -- an earlier anchor of the same reference was returned; D[p].n = p (running 1..n);
      * nothing else is in D, except parts that are in the package but not anchored (DON'T-CARE);
      * every image of a unit view is a record of D (inclusion), and for page / slide / sheet formats the
        view of unit k is exactly the records assigned to anchors on unit k, in order.
-   DON'T-CARE (documentation silent): once or once-per-anchor for a shared part; unanchored parts;
+   FROZEN as-built (text silent, library consistent per format): a shared part is one image per reference in
+     DOCX / ODT / ODG / EPUB and one image per anchor elsewhere (OncePerRef).
+   DON'T-CARE (documentation silent): unanchored parts;
      which relationship wins for a duplicated rId; content type of raw (FlateDecode) PDF samples (a JPEG
      is image/jpeg whatever /Filter form or cascade wraps it: the LAST filter names the data);
      unit_number of sheet formats (documented None) and of flow formats; "image/x-ms-bmp" for BMP.
@@ -84,7 +89,11 @@ DeviationNames ==
     "Epub!NoPixelSize",              \* width/height never filled
     "Rtf!GoalAsTwips",               \* \picw/\pich (pixels for bitmaps) divided by 15
     "Rtf!FirstHexRunOnly",           \* only the first line of the hex dump is decoded (binding level)
-    "Ppt!UnitViewsOmitImages" }
+    "Ppt!UnitViewsOmitImages",
+    "Shared!ReferenceReturnedAgain", \* a reference anchored twice is returned twice in a once-per-reference format
+    "Ooxml!JpegFillBytesNotSkipped", \* docx/pptx/xlsx sniffer copies: 0xFF fill bytes before a marker end the scan
+    "Name!ContentTypeFromExtension"  \* a part without extension gets a content type made from its name
+  }
 
 Odf == {"odt", "odp", "ods", "odg"}
 UnitNumbered == {"pptx", "odp", "pdf", "rtf", "ppt"}    \* image metadata carries the page / slide number
@@ -98,6 +107,22 @@ ContentTypes(kind) ==
       [] kind = "bmp"  -> {"image/bmp", "image/x-ms-bmp"}
       [] OTHER         -> {}                        \* raw samples: DON'T-CARE (see CtOK)
 CtOK(kind, ct) == kind = "raw" \/ ct \in ContentTypes(kind)
+
+\* The content type is the kind's canonical type whatever the part is CALLED: upper / mixed-case extensions
+\* (PHOTO.JPG), double extensions (a.tar.png).  As-built, a part without any extension gets a string made from
+\* its name ("image/media/image1", "image/unknown", "application/octet-stream"): Name!ContentTypeFromExtension.
+NameTyped == {"docx", "pptx", "xlsx", "odt", "odp", "ods", "odg"}      \* content type derived from the part name
+CtOKm(case, m, ct, Dev) ==
+    \/ CtOK(case.media[m].kind, ct)
+    \/ "Name!ContentTypeFromExtension" \in Dev /\ case.fmt \in NameTyped /\ case.media[m].noext
+
+\* SHARED PARTS.  The property text leaves open whether a part referenced by several anchors is one image or
+\* several; the library answers per format and that answer is frozen here (regression oracle, as-built + README):
+\*   once per REFERENCE (anchors with the same a.ref: same relationship id in DOCX, same href in ODT / ODG, same
+\*   manifest item in EPUB) -- one image, the later anchors of that reference return nothing;
+\*   every other format (PPTX, XLSX, ODP, ODS, PDF, RTF): one image per anchor.
+\* Two different references to the same part are two images everywhere.
+OncePerRef == {"docx", "odt", "odg", "epub"}
 
 (* ------------------------------------------------------------------ declarative path semantics *)
 RECURSIVE NF(_)
@@ -176,6 +201,8 @@ DimsOK(case, a, rec, Dev) ==
     IF "Odf!FrameSizeAsPixelSize" \in Dev /\ case.fmt \in Odf THEN rec.w = a.fw /\ rec.h = a.fh
     ELSE IF "Epub!NoPixelSize" \in Dev /\ case.fmt = "epub" THEN rec.w = 0 /\ rec.h = 0
     ELSE IF rec.e THEN TRUE
+    ELSE IF "Ooxml!JpegFillBytesNotSkipped" \in Dev /\ case.fmt \in {"docx", "pptx", "xlsx"} /\ case.media[rec.m].fill
+         THEN rec.w = a.fw /\ rec.h = a.fh       \* sniffer gives up: nothing (XLSX: the anchor's display extent)
     ELSE IF "Rtf!GoalAsTwips" \in Dev /\ case.fmt = "rtf"
          THEN rec.w = case.media[rec.m].w \div 15 /\ rec.h = case.media[rec.m].h \div 15
     ELSE rec.w = case.media[rec.m].w /\ rec.h = case.media[rec.m].h
@@ -189,7 +216,7 @@ UnitOK(case, a, rec) ==
 RecOK(case, a, rec, Dev) ==
     /\ IF MustBeEmpty(case, a, Dev)
        THEN rec.e /\ rec.ct = ""
-       ELSE ~rec.e /\ rec.m # 0 /\ rec.m \in Parts(case, a, Dev) /\ CtOK(case.media[rec.m].kind, rec.ct)
+       ELSE ~rec.e /\ rec.m # 0 /\ rec.m \in Parts(case, a, Dev) /\ CtOKm(case, rec.m, rec.ct, Dev)
     /\ DimsOK(case, a, rec, Dev)
     /\ UnitOK(case, a, rec)
 
@@ -213,11 +240,10 @@ DocOK(case, D, pos, Dev) ==
     IN
     /\ \A j, k \in DOMAIN it : (j < k /\ P(j) # 0 /\ P(k) # 0) => P(j) < P(k)
     /\ \A k \in DOMAIN it :
-          IF P(k) # 0 THEN RecOK(case, A(k), D[P(k)], Dev)
-          ELSE IF MustBeEmpty(case, A(k), Dev)
-               THEN \E j \in DOMAIN it : j < k /\ P(j) # 0 /\ A(j).cands = A(k).cands   \* same href: once
-               ELSE \/ 0 \in Parts(case, A(k), Dev)
-                    \/ \E j \in DOMAIN it : j < k /\ P(j) # 0 /\ D[P(j)].m \in Parts(case, A(k), Dev)
+          LET again == case.fmt \in OncePerRef /\ \E j \in DOMAIN it : j < k /\ P(j) # 0 /\ A(j).ref = A(k).ref
+          IN IF P(k) # 0 THEN RecOK(case, A(k), D[P(k)], Dev) /\ ~again      \* a reference is returned once
+             ELSE \/ again
+                  \/ 0 \in Parts(case, A(k), Dev) /\ ~MustBeEmpty(case, A(k), Dev)
     /\ \A p \in DOMAIN D : (\A i \in DOMAIN pos : pos[i] # p) => ExtraOK(case, D[p], Dev)
     /\ NumbersOK(case, D, pos, Dev)
 
